@@ -1,8 +1,10 @@
 From Coq Require Import Extraction ExtrOcamlBasic.
-From HQ Require Import Base.Prelude Sched.Model.
+From HQ Require Import Base.Prelude Sched.Model Sched.Query.
 Extraction Language OCaml.
 Extraction "/verif/ocaml/sched/gen/sched_model.ml"
   from_user_priority empty_queue queue_add queue_remove queue_size iter_priority_sizes take_tasks
   rv_get rv_remove_multiple capable capable_res create_task_batches gap milp_of feasible objective objective_scale
   placed_total mapping_ok free_after ready_tasks inversions inversion classify open_cut k1_violated k2_violated
-  has_x count_vars blocker_open count_of placement_kind k3_mapping alt_dispatches k4_event k4_violated k5_event vplace_errors vfree_after vdecision_ok rv_remove_cls task_max_count_cls inst_on.
+  has_x count_vars blocker_open count_of placement_kind k3_mapping alt_dispatches k4_event k4_violated k5_event vplace_errors vfree_after vdecision_ok rv_remove_cls task_max_count_cls inst_on
+  new_worker_query compute_new_worker_query query_sol_ok class_fits query_inst query_groups sn_waiting waiting_of
+  mn_entry_of mn_entries find_query is_mn nodes_of class_min_time queue_total desc_valid loaded sumN prefix_mn_unwrap prefix_highs_rejects.
